@@ -1,0 +1,28 @@
+//go:build verif
+
+package vhook
+
+import "sync/atomic"
+
+// Handler is called at every yield point, in the goroutine that reached it.
+// It may block (to park that goroutine), return (to continue) or call
+// runtime.Goexit (to stop the goroutine at exactly that point).
+type Handler func(scope, point string, n uint64)
+
+var handler atomic.Pointer[Handler]
+
+// Set installs the handler (nil removes it).
+func Set(h Handler) {
+	if h == nil {
+		handler.Store(nil)
+		return
+	}
+	handler.Store(&h)
+}
+
+// At marks a yield point and calls the installed handler, if any.
+func At(scope, point string, n uint64) {
+	if h := handler.Load(); h != nil {
+		(*h)(scope, point, n)
+	}
+}
